@@ -18,6 +18,7 @@ ALL12 = sorted(k for k in CFGS if k.startswith("c_"))
 UNITS = {
     "bdd": dict(vspec="bdd.vspec"),
     "iters": dict(vspec="iters.vspec"),
+    "ng": dict(vspec="ng.vspec"),
 }
 
 COMMON_ASSUME = [
